@@ -974,6 +974,29 @@ class Builtins:
         recv = f.recv
         if name == "$subclasses":
             return ListV(list(recv.items))      # type: ignore[union-attr]
+        if name == "$partial":
+            f0, a0, k0 = recv.items      # type: ignore[union-attr]
+            kw = {k.text(): v for k, v in k0.pairs}
+            kw.update(kwargs)
+            return I.call_value(f0, list(a0.items) + list(args), kw, node, fr)
+        if name.startswith("$namedtuple."):
+            what = name.split(".", 1)[1]
+            if what == "_asdict" and isinstance(recv, Obj):
+                return DictV([(Str.lit(n), recv.fields[n]) for n in recv.nt_order])      # type: ignore[attr-defined]
+            if what == "_fields" and isinstance(recv, Obj):
+                return TupleV([Str.lit(n) for n in recv.nt_order])      # type: ignore[attr-defined]
+            if what == "_replace" and isinstance(recv, Obj) and not args:
+                vals = {n: recv.fields[n] for n in recv.nt_order}      # type: ignore[attr-defined]
+                for k, v in kwargs.items():
+                    if k not in vals:
+                        I.raise_exc("ValueError", [Str.lit(f"Got unexpected field names: {k}")], node, fr)
+                    vals[k] = v
+                return I.construct(recv.cls, [], vals, node, fr)
+            if what == "_make" and isinstance(recv, ClassV) and len(args) == 1:
+                seq = I.as_tuple(args[0])
+                if isinstance(seq, (ListV, TupleV)) and getattr(seq, "absorbed", None) is None:
+                    return I.construct(recv.cls, list(seq.items), {}, node, fr)
+            raise I.unsupported(f"NamedTuple {what} with these arguments", node, fr)
         # methods of builtin values
         if name.startswith("$"):
             tname, meth = name[1:].split(".", 1)
@@ -1468,6 +1491,12 @@ class Builtins:
         if all(isinstance(a, IntV) for a in args) and len(args) > 1:
             return IntV(max(a.v for a in args))
         return Unknown(self.I.run.new_tag("max"))
+
+    def x_functools_partial(self, args, kwargs, node, fr) -> Value:
+        # functools.partial(f, *a, **k): a callable that calls f with these arguments in front
+        return Extern("$partial", TupleV([args[0], TupleV(list(args[1:])), DictV([(Str.lit(k), v) for k, v in kwargs.items()])]))
+
+    x_partial = x_functools_partial
 
     def x_staticmethod(self, args, kwargs, node, fr) -> Value:
         # staticmethod(f) as a class-level value: f itself, never bound to an instance (FuncV values are not bound on lookup)
